@@ -20,8 +20,10 @@ def positive_controls(rep, pid):
         if pid in (m.get("caught_by") or {}):
             seeds.append((os.path.dirname(mf), m))
     n = 0
-    for d, m in seeds:
-        r = scratch_check.run(os.path.join(d, "patch.diff"), [pid])
+    from concurrent.futures import ThreadPoolExecutor
+    with ThreadPoolExecutor(max_workers=int(os.environ.get("VERIF_CONTROL_JOBS", "6"))) as ex:
+        results = list(ex.map(lambda dm: scratch_check.run(os.path.join(dm[0], "patch.diff"), [pid]), seeds))
+    for (d, m), r in zip(seeds, results):
         verdict, info = r.get(pid, ("error", ""))
         name = os.path.basename(d)
         if verdict == "error" and "does not apply" in str(info):
@@ -47,13 +49,17 @@ def negative_controls(rep, pid):
         if d["id"] == pid:
             anchors = set(d["anchors"]["files"])
     n = 0
+    todo = []
     for mf in sorted(glob.glob(os.path.join(VERIF, "silent", "*", "meta.json"))):
         m = json.load(open(mf))
         f = m.get("file") or ""
         if not any(f == a or (a.endswith("/") and f.startswith(a)) or ("*" in a and f.split("/")[-1] == a.split("/")[-1]) for a in anchors):
             continue
-        d = os.path.dirname(mf)
-        r = scratch_check.run(os.path.join(d, "patch.diff"), [pid])
+        todo.append((os.path.dirname(mf), m))
+    from concurrent.futures import ThreadPoolExecutor
+    with ThreadPoolExecutor(max_workers=int(os.environ.get("VERIF_CONTROL_JOBS", "6"))) as ex:
+        results = list(ex.map(lambda dm: scratch_check.run(os.path.join(dm[0], "patch.diff"), [pid]), todo))
+    for (d, m), r in zip(todo, results):
         verdict, info = r.get(pid, ("error", ""))
         name = os.path.basename(d)
         if verdict == "error" and "does not apply" in str(info):
